@@ -18,6 +18,33 @@ package scen
 //	                         key is not the requested key
 //	peer-record-oversize / peer-record-bad-addr   "peer records are cut to 8 KiB each
 //	                         with undecodable addresses dropped" on every returned AddrInfo (c10.go)
+//	call-opens-too-many-streams  "no response ... can permanently block the requesting node: the RPC
+//	                         returns an error": a request whose reply did not arrive has to FAIL; a call that
+//	                         goes round for as long as the remote keeps producing the same non-reply is held
+//	                         by the remote for ever. Scheduled streams make every round a handful of harness
+//	                         actions and no virtual time passes in it, so the time bounds above cannot see
+//	                         such a loop; the observable is the number of streams one call has opened. The
+//	                         bound (c10MaxStreamsPerCall = 8) is a harness choice for "permanently" - the
+//	                         property names none; it is not derived from the implementation's retry policy
+//	                         and leaves room for several retries.
+//
+// Persistent responders. Besides remotes that draw every answer afresh (so that
+// a given non-reply hits the first stream AND every retry stream only with a
+// vanishing probability) a remote may be drawn "persistent": it reacts to every
+// request, on every stream, with the same byte-level non-reply (read the request
+// and close in an orderly way without a byte (EOF) | reset | silence | unframed
+// junk | framed junk | a frame cut short, then silence | a frame cut short, then
+// EOF | an over-limit length prefix | the zero-length frame). These are single
+// points of "any byte string, or silence" - what is new is that the remote is
+// consistent, which is what a real misbehaving or foreign implementation is.
+// Class of regressions exposed: any change of the retry / stream re-use logic
+// that does not count some class of failure (clean EOF, unexpected EOF, reset,
+// decode error, ...) against the attempts of the call.
+//
+// Recording tracer (c10_trace.go). A third of the calls of messenger-bytes carry
+// a context whose spans are recording, so the tracing-only blocks of every
+// ProtocolMessenger method run on the decoded response; a panic there is rule
+// caller-panic like any other ("cannot crash" names no configuration).
 //
 // A panic on a goroutine owned by the system under test kills the worker
 // process; the driver reports that as rule "crash".
@@ -53,6 +80,38 @@ var c10ByteFaults = []string{
 	"fault_unknown_conn", "fault_unknown_fields", "fault_cluster_level",
 	"probe_read_timeout_fired", "probe_oversize_frame_rejected", "probe_garbage_rejected", "probe_wrong_key_rejected",
 	"probe_peer_record_trimmed", "probe_bad_addr_dropped", "probe_retry_second_stream", "probe_stream_reused", "probe_sanitised_result",
+	"fault_truncated_then_eof",
+	"fault_persistent_eof", "fault_persistent_reset", "fault_persistent_silence", "fault_persistent_garbage_raw", "fault_persistent_garbage_framed",
+	"fault_persistent_truncated_frame", "fault_persistent_truncated_frame_eof", "fault_persistent_oversize_prefix", "fault_persistent_empty_frame",
+	"probe_persistent_call_gave_up", "fault_traced_call", "probe_traced_call_returned", "probe_traced_response_described",
+}
+
+// c10MaxStreamsPerCall bounds the streams a single call may open (rule
+// call-opens-too-many-streams; a harness choice for "permanently", see above).
+const c10MaxStreamsPerCall = 8
+
+// c10Persistent describes a remote that reacts to every request on every
+// stream in the same way. item / close select the reaction in the scripted
+// remote's answer function; thenEOF: a frame cut short is followed by an
+// orderly close.
+type c10Persistent struct {
+	name    string
+	item    int
+	close   int
+	thenEOF bool
+}
+
+// (index 0 of the draw is the benign choice: no persistent behaviour)
+var c10PersistentKinds = []c10Persistent{
+	{name: "eof", item: 11, close: 1},
+	{name: "reset", item: 11, close: 0},
+	{name: "silence", item: 10},
+	{name: "garbage_raw", item: 6},
+	{name: "garbage_framed", item: 7},
+	{name: "truncated_frame", item: 8},
+	{name: "truncated_frame_eof", item: 8, thenEOF: true},
+	{name: "oversize_prefix", item: 9},
+	{name: "empty_frame", item: 13},
 }
 
 func init() {
@@ -103,6 +162,9 @@ type c10Call struct {
 	rec             *recpb.Record
 	closer, provs   []*peer.AddrInfo
 	answers         []*c10Answer // what the remote produced for requests carrying this call's key
+	opens           int          // streams opened under this call's context
+	received        int          // times the remote received this call's request (keyed requests only)
+	trace           *c10TraceStats
 }
 
 type c10Pair struct {
@@ -163,11 +225,25 @@ func runC10Messenger(s *sim.Sim, echoNil bool) {
 	}
 	s.Quiesce()
 	w := &c10World{S: s, U: u, Self: u.Self.ID, EchoNil: echoNil}
-	s.Summary["cfg"] = fmt.Sprintf("peers=%d clients=%d calls=%d hostility=%d/4 echoNil=%v", nPeers, nClients, nCalls, hostile, echoNil)
+	// persistent responders (not in the dedicated echo scenario, which stays as it was)
+	persistent := map[*simnet.Peer]*c10Persistent{}
+	persistentCfg := ""
+	if !echoNil {
+		c10InstallTracing()
+		for _, p := range remotes {
+			if s.Chance("persistent", 1, 4) {
+				k := &c10PersistentKinds[s.Draw("persistent-kind", len(c10PersistentKinds))]
+				persistent[p] = k
+				persistentCfg += fmt.Sprintf(" %s=%s", p.Name, k.name)
+			}
+		}
+	}
+	s.Summary["cfg"] = fmt.Sprintf("peers=%d clients=%d calls=%d hostility=%d/4 echoNil=%v persistent=[%s]", nPeers, nClients, nCalls, hostile, echoNil, strings.TrimSpace(persistentCfg))
 
 	// ---- the calls
 	calls := make([]*c10Call, nCalls)
 	byKey := map[string]*c10Call{}
+	byTag := map[string]*c10Call{}
 	hasPut := false
 	for i := range calls {
 		c := &c10Call{id: i, client: i % nClients, peer: remotes[s.Draw("to", nPeers)]}
@@ -197,7 +273,14 @@ func runC10Messenger(s *sim.Sim, echoNil bool) {
 		if len(c.key) > 0 {
 			byKey[string(c.key)] = c
 		}
-		c.ctx, c.cancel = context.WithCancel(sim.WithTag(context.Background(), fmt.Sprintf("c%02d", i)))
+		base := sim.WithTag(context.Background(), fmt.Sprintf("c%02d", i))
+		if !echoNil && s.Chance("traced", 1, 3) {
+			// the spans of this call are recording (c10_trace.go)
+			base, c.trace = c10Traced(base)
+			s.Count("fault_traced_call")
+		}
+		c.ctx, c.cancel = context.WithCancel(base)
+		byTag[sim.TagOf(c.ctx)] = c
 		calls[i] = c
 	}
 	stop := false
@@ -237,6 +320,9 @@ func runC10Messenger(s *sim.Sim, echoNil bool) {
 				}
 				if m.GetType() != pb.Message_ADD_PROVIDER {
 					p.reqs = append(p.reqs, m)
+					if c := byKey[string(m.GetKey())]; c != nil && m.GetType() != pb.Message_PING {
+						c.received++
+					}
 				}
 			}
 		}
@@ -287,7 +373,15 @@ func runC10Messenger(s *sim.Sim, echoNil bool) {
 			raw = encodeFrame(m)
 		}
 		item := 0
-		if !benign && s.Chance("hostile", hostile, 4) {
+		pers := persistent[p.peer]
+		switch {
+		case benign:
+			pers = nil
+		case pers != nil:
+			// a persistent responder: the same non-reply to every request on every stream
+			item = pers.item
+			s.Count("fault_persistent_" + pers.name)
+		case s.Chance("hostile", hostile, 4):
 			item = 1 + s.Draw("item", 13)
 		}
 		if echoNil && req.GetType() == pb.Message_PUT_VALUE && !benign {
@@ -313,6 +407,11 @@ func runC10Messenger(s *sim.Sim, echoNil bool) {
 			ans.msg, ans.info = nil, nil
 			ans.kind = "truncated_frame"
 			raw = raw[:1+s.Draw("cut", len(raw)-1)]
+			if (pers != nil && pers.thenEOF) || (pers == nil && s.Chance("cut-then-eof", 1, 3)) {
+				// the partial frame is followed by an orderly close
+				closeAfter = true
+				s.Count("fault_truncated_then_eof")
+			}
 		case 9:
 			ans.kind, ans.over = "oversize_prefix", true
 			var l [binary.MaxVarintLen64]byte
@@ -321,7 +420,13 @@ func runC10Messenger(s *sim.Sim, echoNil bool) {
 		case 10:
 			ans.kind, ans.silent = "silence", true
 		case 11:
-			switch s.Draw("close", 2) {
+			how := 0
+			if pers != nil {
+				how = pers.close
+			} else {
+				how = s.Draw("close", 2)
+			}
+			switch how {
 			case 0:
 				ans.kind, resetAfter = "reset", true
 			default:
@@ -392,6 +497,10 @@ func runC10Messenger(s *sim.Sim, echoNil bool) {
 			}
 			checked[c.id] = true
 			c10JudgeCall(s, c, echoNil)
+			if persistent[c.peer] != nil && c.panicMsg == "" && c.err != nil && c.received >= 2 {
+				// the request was sent again after the first non-reply, and then the call gave up
+				s.Count("probe_persistent_call_gave_up")
+			}
 		}
 	}
 
@@ -412,9 +521,27 @@ func runC10Messenger(s *sim.Sim, echoNil bool) {
 		for _, p := range s.Parked() {
 			p := p
 			switch p.Kind {
-			case "client", "open":
-				// (streams always open: a failing dial is not a *response*; C11 covers it)
+			case "client":
 				acts = append(acts, sim.Action{ID: p.ID, Do: func() { s.Release(p, nil) }})
+			case "open":
+				// (streams always open: a failing dial is not a *response*; C11 covers it)
+				acts = append(acts, sim.Action{ID: p.ID, Do: func() {
+					if c := byTag[sim.TagOf(p.Ctx)]; c != nil {
+						c.opens++
+						if c.opens > c10MaxStreamsPerCall {
+							// rule call-opens-too-many-streams; the stream is not opened, the
+							// shut-down below cancels the call
+							var kinds []string
+							for _, a := range c.answers {
+								kinds = append(kinds, a.kind)
+							}
+							s.Violate("call-opens-too-many-streams", "c%02d %s to %s (context without deadline) asks for stream number %d; the remote received its request %d time(s) and reacted with [%s]: a request whose reply does not arrive has to fail, this call goes round for as long as the remote keeps it up (bound: %d streams per call)",
+								c.id, c10MethodNames[c.method], c.peer.Name, c.opens, c.received, strings.Join(kinds, ", "), c10MaxStreamsPerCall)
+							return
+						}
+					}
+					s.Release(p, nil)
+				}})
 			}
 		}
 		for _, st := range fab.Streams() {
@@ -557,6 +684,13 @@ func c10JudgeCall(s *sim.Sim, c *c10Call, echoNil bool) {
 			s.Violate("caller-panic", "%s panicked on the caller's goroutine: %s at %s", name, c.panicMsg, c.panicSite)
 		}
 		return
+	}
+	if c.trace != nil {
+		s.Count("probe_traced_call_returned")
+		if c.err == nil && c.trace.attrs.Load() >= 2 {
+			// the tracing-only block that describes the decoded response ran
+			s.Count("probe_traced_response_described")
+		}
 	}
 	if c.err != nil {
 		switch {
